@@ -10,14 +10,6 @@ CONSTANTS
   InsertCmp = "gt"
   WindowTest = "tmodf"
 CONSTRAINT ClockAtMost7
-INVARIANT C01_Registry
-INVARIANT C01_Ordered
 INVARIANT C02_AlgIsDecl
-PROPERTY C01_C02_C05_Step
-PROPERTY C05_RunOK
-PROPERTY C02_PlusOne
-PROPERTY C02_ClockOnlyAtEnd
-PROPERTY C06_Final
-PROPERTY C06_NothingRuns
-PROPERTY C06_LaterNoop
-PROPERTY C01_RejectedNoop
+\* (only the property this control must refute is listed: with several violated properties TLC's workers
+\*  would race for which one is reported first; the full list is checked on the right algorithm by the main cfg)
